@@ -668,6 +668,7 @@ def _divide(a, b):
             r = e.fresh('inv')
             e.add(r * f == 1)
             e.memo[key] = r
+            e.memo['invof:' + r.decl().name()] = f
         out = out * e.memo[key]
     return z3.simplify(out, som=True)
 
@@ -792,6 +793,43 @@ def sym_log(x):
     if bool(SymBool(t <= 0)):
         raise ValueError('math domain error')
     return Sym(LN(t))
+
+
+def sym_log_product(x):
+    """log with the product rule applied structurally: for a monomial c * f1 * f2 * inv(g1) ... with positive factors,
+    log = log(c) + L(f1) + L(f2) - L(g1) ..., L uninterpreted on the atomic factors.  Other terms: L(term)."""
+    if not isinstance(x, Sym):
+        return math.log(x)
+    e = E()
+    t = z3.simplify(toreal(x.t), som=True)
+    if is_num(t):
+        return math.log(float(t.as_fraction()))
+    if bool(SymBool(t <= 0)):
+        raise ValueError('math domain error')
+    factors = list(t.children()) if z3.is_mul(t) else [t]
+    total = z3.RealVal(0)
+    for f in factors:
+        if z3.is_mul(f):
+            factors.extend(f.children())
+            continue
+        if is_num(f):
+            c = f.as_fraction()
+            if c <= 0:
+                return Sym(LN(t))
+            total = total + z3.RealVal(repr(math.log(float(c))))
+            continue
+        if z3.is_app_of(f, z3.Z3_OP_POWER):
+            return Sym(LN(t))
+        nm = f.decl().name() if z3.is_const(f) else None
+        inv_of = e.memo.get('invof:' + nm) if nm else None
+        base, sgn = (inv_of, -1) if inv_of is not None else (f, 1)
+        if not z3.is_const(base) and not z3.is_app_of(base, z3.Z3_OP_UNINTERPRETED):
+            # non-atomic factor (a sum): keep it as one argument of L
+            pass
+        if bool(SymBool(base <= 0)):
+            return Sym(LN(t))
+        total = total + sgn * LN(base)
+    return Sym(z3.simplify(total))
 
 
 def sym_range(*args):
